@@ -15,6 +15,9 @@ CHECKS = {
  "C08": ("proof", "Lean 4 model over Q of the parameter loop of _get_wyckoff_sets (reading rule and first tolerance translated from the AST): params_sound for every table/atoms/cell/tolerance (accepted parameters reproduce an atom and every e_k(W)+t_c is matched), repSolvable_all by kernel evaluation over all 1 731 positions with the rule the source uses now, wrap range, flag_iff. Correspondence: synthetic complete/displaced/incomplete orbits through the real _get_wyckoff_sets; end-to-end table-built crystals.",
          STD_NOTE + "translators gen_tables/gen_wyckoff_rule; completeness for exact orbits is covered by repSolvable_all + act_add_int + the correspondence on complete orbits, not by one end-to-end theorem; float evaluation away from tolerance boundaries.",
          "Lean 4 proof (model soundness + kernel-checked table predicate) + correspondence", "DESIGN.md §6 C08"),
+ "C09": ("proof", "Lean 4: the covering-graph theorem (for a connected voltage graph over a finite abelian group A — any number of atoms and bonds — the derived graph has |A|/|H| components, H = closed-walk voltages; orbit-stabiliser on components) and its corollary for A = (Z/2)^k: N_2x = 2^(k-r), so D = k - log2 N_2x = r is the GF(2)-rank of the cycle offsets and lies in 0..k; log2 exact on the reachable values; the entry wrap puts atoms inside the cell (precondition of C10). Code-faithful executable model (1x/2x minimum-image tables, components) tied by correspondence; independent oracle (union-find over images with offsets, integer rank of the cycle lattice) and metamorphic presentations on the real code.",
+         STD_NOTE + "Mathlib; model Dim.lean + gen_dim_rule.py; DBSCAN contract D1; the identification of the model's component count with the cardinality of the quotient in the covering theorem, and rank_F2 = rank_Z (required by the property for the explored family; counted when it fails), are not proved.",
+         "Lean 4 proof (covering theorem via orbit-stabiliser) + correspondence + independent oracle", "DESIGN.md §6 C09"),
  "C10": ("proof", "Lean 4 model over Q of extend_system / CellList / get_displacement_tensor. Proved for ALL inputs: ceil(ext/h) from squares is the least n with n^2 >= ext^2/h^2; no image within the extension of a point of the cell needs more copies than are taken (extend_complete_axis: Cauchy-Schwarz with the reciprocal vector); the 27-bin search returns exactly the stored points within the cutoff (query_exact); every finite entry is a genuine image with exact displacement/distance and is the minimum over all images seen (pairEntry_sound / _is_min / _none_iff). Correspondence against the C++ rebuilt from /repo on dyadic inputs + brute-force lattice-sum oracle.",
          STD_NOTE + "hand-written model tied by differential testing; floating-point rounding inside ceil, sqrt and bin indices is outside the model (inputs are dyadic so that distance comparisons are exact).",
          "Lean 4 proof over an exact-arithmetic model + correspondence with the rebuilt C++", "DESIGN.md §6 C10"),
